@@ -102,9 +102,13 @@ class C15(Prop):
             yield {'transport': rng.choice(['rs', 'us']), 'hwm': rng.choice([5, 5, 12, 30, 1000]), 'events': ev}
 
     def run_impl(self, case):
+        if case.get('stall'):
+            return self.stall_scenario(case)
         return run_scenario(case)
 
     def coq_case(self, case, obs):
+        if case.get('stall'):
+            return None
         evs = []
         for e in case['events']:
             if e[0] == 'send':
@@ -125,6 +129,8 @@ class C15(Prop):
         return f"let '(h, es, _, _, _, _) := {t} in let s := run_released 200 (srun h es) in (wire (g s), blind (g s), timed_out (g s), reading (g s))"
 
     def oracle(self, case, obs):
+        if case.get('stall'):
+            return self.stall_oracle(case, obs)
         if obs['blind']:
             return 'a message was written while the transport reported its send buffer full'
         if len(set(obs['wire'])) != len(obs['wire']):
@@ -148,10 +154,87 @@ class C15(Prop):
                 return 'reading was not paused / resumed together with the send gate'
         return None
 
+    # ---- a stalled peer is aborted after max_send_delay, also when a graceful close is already pending
+    @staticmethod
+    def stall_scenario(case):
+        from aiorpcx import RPCSession
+        loop = sessions.new_loop()
+        try:
+            aborts = []
+
+            async def main():
+                proto, ft, s = sessions.attach(RPCSession, 'server', case['transport'])
+                orig_abort, orig_close = ft.abort, ft.close
+
+                def abort():
+                    aborts.append(loop.time())
+                    return orig_abort()
+
+                def close():
+                    if case['close_completes']:
+                        return orig_close()
+                    ft.closing = True            # unsent data, silent peer: the graceful close never completes
+                ft.abort, ft.close = abort, close
+                proto.pause_writing()
+                t0 = loop.time()
+                out = {}
+
+                async def sender():
+                    try:
+                        await s.send_notification('n', [1])
+                        out['sender'] = 'sent'
+                    except BaseException as e:
+                        out['sender'] = type(e).__name__
+                st = loop.create_task(sender())
+                await asyncio.sleep(case['close_after']) if case['close_after'] is not None else None
+                closer = None
+                if case['close_after'] is not None:
+                    closer = loop.create_task(s.close(force_after=case['force_after']))
+                await asyncio.sleep(60)
+                return {'aborts': [a - t0 for a in aborts], 'sender': out.get('sender'), 'lost': ft.lost,
+                        'max_send_delay': s.max_send_delay, 'closer_done': closer.done() if closer else None}
+            return loop.run_until_complete(main())
+        finally:
+            sessions.close_loop(loop)
+
+    @staticmethod
+    def stall_oracle(case, obs):
+        d = obs['max_send_delay']
+        if case['close_after'] is not None and case['close_completes']:
+            return None if obs['lost'] else 'the connection was not lost after close()'
+        if not obs['aborts'] or obs['aborts'][0] > d + 1e-6:
+            when = ('never' if not obs['aborts'] else 'only after %.1f s' % obs['aborts'][0])
+            return (f'a message could not be written for max_send_delay = {d} s but the connection was aborted {when}'
+                    + (' (a graceful close was pending)' if case['close_after'] is not None else ''))
+        if obs['sender'] != 'TaskTimeout':
+            return f"the blocked sender ended with {obs['sender']} instead of TaskTimeout"
+        return None
+
+    def extra_checks(self, ctx):
+        from harness.core import Failure
+        out = []
+        n = 0
+        for transport in ('rs', 'us'):
+            for close_after, completes, force in ((None, False, 30), (1.0, False, 30), (5.0, False, 45), (19.0, False, 30), (1.0, True, 30)):
+                case = {'stall': True, 'transport': transport, 'close_after': close_after, 'close_completes': completes,
+                        'force_after': force}
+                obs = self.stall_scenario(case)
+                n += 1
+                ctx['extra_evals'] += 1
+                cl = self.stall_oracle(case, obs)
+                if cl:
+                    out.append(Failure(case, obs, cl))
+        ctx['notes'].append(f'stalled-peer scenarios on a real session: {n} (with and without a graceful close pending)')
+        return out[:3]
+
     def nontrivial(self, case, obs):
+        if case.get('stall'):
+            return True
         return sum(1 for e in case['events'] if e[0] == 'send') >= 4 and 'drain' in [e[0] for e in case['events']]
 
     def histogram(self, case, obs):
+        if case.get('stall'):
+            return ['stall']
         h = ['transport=' + case['transport'], 'hwm=%d' % case['hwm']]
         if obs['timeouts']:
             h.append('has_timeout')
